@@ -12,6 +12,8 @@
 // verif:assume C06: one or two candidate nodes (each on-demand or spot, priced from the catalogue) with one reschedulable pod of symbolic cpu request each; with one candidate, another initialized node with symbolic allocatable cpu stays, one NodePool (on-demand and spot allowed, or on-demand only), 3 instance types x {on-demand, spot} offerings with symbolic availability and symbolic prices (multiples of 2^-10 in (0, 1024], exact in float64); no PDBs, DaemonSets, volumes, DRA, topology constraints
 // verif:pure ^sigs\.k8s\.io/karpenter/pkg/utils/resources\.(Fits|Cmp)$
 // verif:pure ^\(\*sigs\.k8s\.io/karpenter/pkg/scheduling\.Requirement\)\.(Has|Len|Operator)$
+// verif:nondeterministic the scheduler breaks ties between equally good domains, NodeClaims and instance types by Go map iteration order; a native run may take another admissible behaviour than the symbolic path
+// verif:assume sample comparison against the real build is restricted to the verdict for these harnesses: the real code breaks ties by randomised map iteration order, the engine iterates in insertion order; violations are always confirmed natively
 
 package disruption
 
